@@ -6,6 +6,7 @@ import c02
 
 CONFIGS = ['prod']
 EXPLANATION = (
+    'N7: the membership record is a plain carrier — ClusterMember::new stores id, address and data centre exactly as given (the selector filters the local node by comparing addresses, the consumers key their peers by id). '
     'SEM (abstract interpretation of the MIR by the checker\'s own interpreter, no code of the repository runs): DCAwareSelector::select_nodes, with select_n_nodes and '
     'NodeCycler, is interpreted on a bounded family of data-centre layouts (quick: 21 layouts up to 4 data centres, every rotating-cursor position = whatever selections were '
     'made before, the local node first / last in the first / last data centre, all 8 levels, every random draw of data centres; thorough: up to 4 x 4 nodes). Node '
@@ -391,6 +392,8 @@ def check_N6(ctx, facts):
 
 def check(ctx):
     facts = ctx.facts('prod')
+    import carrier_abs
+    carrier_abs.check_member_constructor(ctx, facts, 'C15.N7')
     check_actor(ctx, facts)
     # SEM: select_nodes (with select_n_nodes and NodeCycler) interpreted on a family of concrete layouts, for every cursor position,
     # every level and every random draw (selector_abs); subsumes N3-N6, which are evaluated only when a construct is not modelled
